@@ -46,7 +46,15 @@ def programs(tier, seed):
     shared3 = (f"(lambda base: base.select_columns(['g', 'x']).concat_rows(b=base.select_columns(['g', 'y']).rename_columns({{'x': 'y'}}), id_column=None))"
                f"({D}.extend({{'w': 'x + y'}}))")
     shared4 = (f"(lambda base: base.drop_columns(['y']).natural_join(b=base.order_rows(['y'], limit=1).select_columns(['g', 'y']), on=['g'], jointype='left'))({D})")
-    for label, src in (("shared_obj_select_vs_project", shared1), ("shared_obj_two_projects", shared2), ("shared_obj_concat", shared3), ("shared_obj_limit", shared4),
+    # one shared interior node visited twice, the second visit asking for a strict SUPERSET of the first (and the mirror image; and three visits)
+    shared5 = (f"(lambda base: base.select_columns(['g', 'z']).natural_join(b=base.select_columns(['g', 'z', 'y']), on=['g'], jointype='left'))"
+               f"({D}.extend({{'z': 'x + 1'}}))")
+    shared6 = (f"(lambda base: base.select_columns(['g', 'z', 'y']).natural_join(b=base.select_columns(['g', 'z']), on=['g'], jointype='left'))"
+               f"({D}.extend({{'z': 'x + 1'}}))")
+    shared7 = (f"(lambda base: base.select_columns(['g']).natural_join(b=base.select_columns(['g', 'w']).natural_join(b=base.select_columns(['g', 'w', 'y']), on=['g'], jointype='inner'), "
+               f"on=['g'], jointype='left'))({D}.extend({{'w': 'x * 2'}}))")
+    for label, src in (("shared_obj_superset_second", shared5), ("shared_obj_superset_first", shared6), ("shared_obj_three_visits", shared7),
+                       ("shared_obj_select_vs_project", shared1), ("shared_obj_two_projects", shared2), ("shared_obj_concat", shared3), ("shared_obj_limit", shared4),
                        ("shared_dag", dag), ("shared_dag_filter", dag2), ("diffkey_then_select", dk), ("diffkey_then_count", dk2),
                        ("window_then_select", f"{D}.extend({{'r': '_row_number()'}}, partition_by=['g'], order_by=['y']).select_columns(['x', 'r'])"),
                        ("order_limit_then_select", f"{D}.order_rows(['y'], limit=1).select_columns(['x'])"),
